@@ -106,14 +106,15 @@ def jobs(tier):
     js.append(Job("trap.add_traps.rows.n8", "C12/trap.c", defines={"VC_CASE": 1, "VC_N": 8, "VC_GEOM": 0}, cbmc_flags=SAFE, kind="proof",
                   functions=["pixman_add_traps"], domain="one trap with vertical edges, all coordinates/offsets/height<=32767",
                   timeout=2400, min_props=8, assumptions=[A_SHIFT, A_LOWB]))
-    js.append(Job("trap.rasterize_trapezoid.walkers.n4", "C12/trap.c", defines={"VC_CASE": 0, "VC_N": 4, "VC_GEOM": 1, "VC_BITS": 16}, cbmc_flags=SAFE,
-                  kind="bounded", bound="|coordinates| < 2^16 fixed units (one pixel), x_off in {0,1,-3}, y_off in -1..1", functions=["pixman_rasterize_trapezoid", "pixman_line_fixed_edge_init"],
-                  domain="slanted edges: recorded walkers == pixman_edge_init on the y-ordered, shifted end points at row t",
-                  timeout=900, min_props=8, assumptions=[A_SHIFT, A_LOWB]))
     if th:
-        js.append(Job("trap.add_traps.walkers.n8", "C12/trap.c", defines={"VC_CASE": 1, "VC_N": 8, "VC_GEOM": 1, "VC_BITS": 16}, cbmc_flags=SAFE,
-                      kind="bounded", bound="|coordinates| < 2^16 fixed units (one pixel), x_off in {0,1,-3}, y_off in -1..1", functions=["pixman_add_traps"],
-                      domain="slanted edges", timeout=900, min_props=8, assumptions=[A_SHIFT, A_LOWB]))
+      js.append(Job("trap.rasterize_trapezoid.walkers.n4", "C12/trap.c", defines={"VC_CASE": 0, "VC_N": 4, "VC_GEOM": 1, "VC_BITS": 4, "VC_SHIFT": 13}, cbmc_flags=UB,
+                  kind="bounded", bound="coordinates = v*2^13 with |v| < 2^4 (+-2 pixels, 1/8 pixel resolution), x_off in {0,1,-3}, y_off in -1..1", functions=["pixman_rasterize_trapezoid", "pixman_line_fixed_edge_init"],
+                  domain="slanted edges: recorded walkers == pixman_edge_init on the y-ordered, shifted end points at row t",
+                  timeout=3600, min_props=8, assumptions=[A_SHIFT, A_LOWB]))
+    if th:
+        js.append(Job("trap.add_traps.walkers.n8", "C12/trap.c", defines={"VC_CASE": 1, "VC_N": 8, "VC_GEOM": 1, "VC_BITS": 4, "VC_SHIFT": 13}, cbmc_flags=UB,
+                      kind="bounded", bound="coordinates = v*2^13 with |v| < 2^4 (+-2 pixels, 1/8 pixel resolution), x_off in {0,1,-3}, y_off in -1..1", functions=["pixman_add_traps"],
+                      domain="slanted edges", timeout=3600, min_props=8, assumptions=[A_SHIFT, A_LOWB]))
     js.append(Job("finding.trap.bottom_at_range_min", "C12/trap.c", defines={"VC_CASE": 0, "VC_N": 8, "VC_GEOM": 0, "VC_LOWB": 1}, cbmc_flags=UB,
                   kind="proof", functions=["pixman_rasterize_trapezoid", "pixman_sample_floor_y"],
                   domain="valid trapezoid whose shifted bottom is <= INT32_MIN + Y_FRAC_FIRST", timeout=2400, min_props=8, assumptions=[A_SHIFT]))
